@@ -133,7 +133,7 @@ func runRegCase(c *regCase) (calls []model.RegCall, panicMsg string) {
 			panicMsg = fmt.Sprint(r)
 		}
 		for _, x := range tr.Calls {
-			calls = append(calls, model.RegCall{Seq: x.Seq, Op: x.Op, Name: x.Name, Ref: x.Ref, Raw: x.Raw, Err: x.Err, Bool: x.Bool, Depth: x.Depth})
+			calls = append(calls, model.RegCall{Seq: x.Seq, Op: x.Op, Name: x.Name, Ref: x.Ref, Raw: x.Raw, Proxy: x.Proxy, Err: x.Err, Bool: x.Bool, Depth: x.Depth})
 		}
 	}()
 	newMeta := func(name string) *component_definition.Meta {
